@@ -412,6 +412,9 @@ func affineD(v ssa.Value, d int) (Affine, bool) {
 		}
 		return affSym(desc(x)), true
 	case *ssa.Parameter:
+		if a, ok := paramBindA[x]; ok {
+			return a.clone(), true
+		}
 		return affSym(desc(x)), true
 	case *ssa.Phi:
 		if e, ok := phiEnv[x]; ok {
